@@ -102,7 +102,10 @@ theorem C19_lex_fuel_suffices (s : List Nat) : lex s ≠ .error .fuel :=
   lexLoop_no_fuel _ s true false (Nat.lt_succ_self _)
 
 /-- Full statement of the second half of the property for a preprocessor `pp` (a function on token lists):
-    preprocessing the -E output again and printing it reproduces the text. -/
+    preprocessing the -E output again and printing it reproduces the text.
+    For the actual second pass (`C19Bridge.secondPass fuel file`) it is FALSE (Findings/C19.lean:
+    `C19_finding_second_pass_surviving_name`, for every fuel and display name); it holds on the inert region:
+    `C19_idempotent`, `C19_idempotent_exact`, `C19_idempotent_text` below. -/
 def C19_idempotent_Statement (pp : List Tok → List Tok) : Prop :=
   ∀ ts : List Tok, (∀ t ∈ ts, selfLexing t.text = true) → (∀ t ∈ ts.head?, t.atBol = true) →
     ∃ ts', lex (printTokens ts) = .ok ts' ∧ printTokens (pp ts') = printTokens ts
@@ -116,10 +119,11 @@ def Inert (isMacro : List Nat → Bool) (ts : List Tok) : Bool :=
     self-lexing spellings whose first token is at the beginning of a line (as the first token of a file always is),
     printing, re-reading, preprocessing and printing again gives the same text, byte for byte.
 
-    What is missing for `C19_idempotent_Statement`: (1) that chibicc's `preprocess2` IS such a `pp` — the preprocessor is
-    not modelled here (Model/PP is C09/C10's); (2) that the token list -E prints is inert: an expansion result that starts
-    a line with `#` (`#define H #` / `H define X 1`) or an identifier that is still a macro name when re-read (blue paint
-    is lost in the text: `#undef linux` … `linux`) is outside; both are tested on the binary (checklib/C19.py). -/
+    (1) That chibicc's `preprocess2` IS such a `pp` is `C19_preprocess2_identity` / `C19_idempotent` below (with
+    `isMacro := isInitMacro`; `C19Bridge.secondPass_inert` is `hpp` for lists of Unicode scalar values).  (2) That the token
+    list -E prints is inert is NOT true of every input: an expansion result that starts a line with `#` (`#define H #` /
+    `H define X 1`) or an identifier that is still a macro name when re-read (blue paint is lost in the text:
+    `#undef linux` … `linux`) is outside, and there `C19_idempotent_Statement` is false (Findings/C19.lean). -/
 theorem C19_idempotent_partial (pp : List Tok → List Tok) (isMacro : List Nat → Bool)
     (hpp : ∀ us, Inert isMacro us = true → pp us = us)
     (ts : List Tok) (h : ∀ t ∈ ts, selfLexing t.text = true) (hfirst : ∀ t ∈ ts.head?, t.atBol = true)
@@ -247,6 +251,53 @@ example : ∃ ts', lex (printTokens [⟨.ident, [120], true, false⟩, ⟨.punct
       ⟨.punct, [45], false, true⟩, ⟨.punct, [45], false, false⟩, ⟨.ppnum, [49], false, false⟩, ⟨.punct, [59], false, false⟩])
       = .ok ts' ∧ printTokens (secondPass 7 "b.c" ts') = [120, 32, 61, 32, 233, 32, 45, 32, 45, 49, 59, 10] :=
   C19_idempotent_text 7 "b.c" _ (by decide) (by decide) (by decide) (by decide) (by decide)
+
+open ChibiVerif.C19Bridge in
+/-- **C19 (second run, text to text).**  `passText` is a whole `chibicc -E` run over the models: `tokenize`, `preprocess2`
+    from the table of `init_macros`, `print_tokens`.  Applied to the text the first run printed for an inert token list (any
+    flags; self-lexing spellings of Unicode scalar values) it prints that text again — exactly, except that a blank before
+    the very first token is gone — with any display name and any fuel ≥ the number of tokens. -/
+theorem C19_second_run (ts : List Tok) (h : ∀ t ∈ ts, selfLexing t.text = true)
+    (hin : Inert isInitMacro (normFirst ts) = true) (hv : validText ts = true)
+    (fuel : Nat) (hfuel : ts.length ≤ fuel) (file : String) :
+    passText fuel file (printTokens ts) = .ok (printTokens (normFirst ts)) := by
+  obtain ⟨ts', hl, ht, hp, hpr, _⟩ := C19_idempotent ts h hin fuel hfuel file
+  have hv' : validText ts' = true := by rw [validText_congr _ _ ht]; exact hv
+  unfold passText passTokens
+  rw [hl]
+  simp only [hp]
+  rw [show toPPs ts' = toPPsFrom 0 ts' from rfl, map_ofPP_toPPsFrom ts' 0 hv', hpr]
+
+open ChibiVerif.C19Bridge in
+/-- non-vacuity: ` a` newline `b = "é" - -1;` run through the model of `chibicc -E` by the kernel: the same text without the
+    first blank -/
+example : passText 9 "b.c" (printTokens [⟨.ident, [97], false, true⟩, ⟨.ident, [98], true, false⟩, ⟨.punct, [61], false, true⟩,
+      ⟨.str, [34, 233, 34], false, true⟩, ⟨.punct, [45], false, true⟩, ⟨.punct, [45], false, false⟩, ⟨.ppnum, [49], false, false⟩,
+      ⟨.punct, [59], false, false⟩]) = .ok [97, 10, 98, 32, 61, 32, 34, 233, 34, 32, 45, 32, 45, 49, 59, 10] :=
+  C19_second_run _ (by decide) (by decide) (by decide) 9 (by decide) "b.c"
+
+/-- **C19 (`preprocess2` does nothing where there is nothing to do).**  In ANY state of the macro table (so also after
+    `-D`/`-U`), for any lexer handed to `paste`, with fuel ≥ the length: a token list in which no token is a directive `#`
+    (`is_hash`: at_bol, no origin, spelled `#`) and `find_macro` finds no token is returned unchanged — every field of every
+    token — and the state (table, `__COUNTER__`) is unchanged.  This discharges the assumption `hpp` of
+    `C19_idempotent_partial` against the preprocessor model. -/
+theorem C19_preprocess2_identity (lx : String → ChibiVerif.PP.LexOne) (st : ChibiVerif.PP.St) (us : List ChibiVerif.PP.Tok)
+    (fuel : Nat) (hfuel : us.length ≤ fuel)
+    (h : ∀ u ∈ us, ChibiVerif.PP.isHash u = false ∧ ChibiVerif.PP.findMacro st.defs u = none) :
+    ChibiVerif.PP.preprocess2 lx fuel st us = .ok (us, st) :=
+  ChibiVerif.C19Bridge.preprocess2_inert lx st us fuel hfuel h
+
+/-- non-vacuity: `x # 1` in the table of `init_macros` plus a user macro `y`; and the hypothesis matters: with `y` instead
+    of `x` the list changes -/
+example :
+    ChibiVerif.PP.preprocess2 ChibiVerif.PP.Lex.lexOne 3
+      { defs := ("y", .obj [{ kind := .num, text := "2" }]) :: ChibiVerif.PP.initDefs }
+      [{ kind := .ident, text := "x", atBol := true }, { kind := .punct, text := "#", hasSpace := true },
+       { kind := .num, text := "1", hasSpace := true }] =
+    .ok ([{ kind := .ident, text := "x", atBol := true }, { kind := .punct, text := "#", hasSpace := true },
+       { kind := .num, text := "1", hasSpace := true }],
+      { defs := ("y", .obj [{ kind := .num, text := "2" }]) :: ChibiVerif.PP.initDefs }) :=
+  C19_preprocess2_identity _ _ _ 3 (by decide) (by decide)
 
 /-- **C19 (the first pass never emits a directive).**  No token in the output of `preprocess2` — any table, any input,
     any fuel — is a `#` with `at_bol` and without origin: a `#` that starts a line of the `-E` text was produced by a macro
